@@ -122,8 +122,14 @@ fn mutate_bytes(rng: &mut Rng, mut v: Vec<u8>) -> Vec<u8> {
     v
 }
 
-fn case_generated(ctx: &Ctx, rng: &mut Rng, rep: &mut Report, params: &vcore::bundlegen::GenParams) {
-    let b = gen_bundle(rng, params);
+fn case_generated(ctx: &Ctx, rng: &mut Rng, rep: &mut Report, params: &vcore::bundlegen::GenParams, spend_limit_stratum: bool) {
+    let b = if spend_limit_stratum {
+        let n = *rng.pick(&[5999usize, 6000, 6001]);
+        rep.count(&format!("spend-limit-stratum:{n}"));
+        vcore::bundlegen::many_spends(rng, n)
+    } else {
+        gen_bundle(rng, params)
+    };
     let form = rng.below(10);
     let (program, form_name, known_output): (Vec<u8>, &str, bool) = match form {
         0..=3 => (quoted_generator(&b).serialize(), "quoted-plain", true),
@@ -315,6 +321,6 @@ pub fn run(args: &Args, rep: &mut Report) {
             run_corpus_file(&corpus[i as usize], rep, if args.thorough() { 11_000_000_000 } else { 300_000_000 });
             return;
         }
-        case_generated(&ctx, rng, rep, &params);
+        case_generated(&ctx, rng, rep, &params, i % 3000 == 1777);
     });
 }
